@@ -187,6 +187,10 @@ def run_case(case: dict) -> CaseResult:
 
     rl = ReconnectLogic(client=cli, on_connect=on_connect, on_disconnect=on_disconnect, name="dev" if named else None, on_connect_error=on_error)
     ptr_alias, a_name = "dev._esphomelib._tcp.local.", "dev.local."
+    if case.get("cached"):
+        # the zeroconf cache already holds the device's (unexpired) records, as it does in any running installation
+        world.cache = [Upd(Rec(_TYPE_PTR, alias=ptr_alias, name="_esphomelib._tcp.local.")), Upd(Rec(_TYPE_A, name=a_name))]
+        classes.add("records_already_cached")
 
     def live_session():
         c = cli._connection
@@ -673,6 +677,8 @@ def _case(draw, tier):
     if not case["named"] and case["addr"] in ("ip", "name") and draw(st.booleans()):
         case["name_late"] = True
     if draw(st.integers(0, 3)) == 0:
+        case["cached"] = True
+    if draw(st.integers(0, 3)) == 0:
         # slow user callbacks; start()/stop() racing with a callback that is still running is outside the statement,
         # so these histories keep only the initial start()
         case["cb_delay"] = {k: draw(st.sampled_from([0, 1, 64, 200])) for k in ("connect", "disconnect", "error")}
@@ -718,6 +724,16 @@ def _late_name_cases():
                        "events": [{"t": 0, "do": "start"}, {"t": 128, "do": "end", "how": how}, {"t": 128 + 64 * (6 + 2 * k), "do": "mdns", "rec": rec}], "horizon": 120}
 
 
+def _cached_record_cases():
+    """The zeroconf cache already holds the device's records when the manager starts waiting; a record arriving during
+    the wait still triggers the attempt."""
+    for rec in ("ptr", "a"):
+        for k in (1, 3):
+            for at in (3, 8):
+                yield {"named": True, "addr": "ip", "K": 4.0, "cached": True, "plan": [["refuse", 2]] * k + [["refuse", 2], ["ok"]],
+                       "events": [{"t": 0, "do": "start"}, {"t": 64 * (at + (6 if k == 3 else 0)), "do": "mdns", "rec": rec}], "horizon": 120}
+
+
 def _stop_start_same_instant_cases():
     """stop() and then start() in the same instant (and a little apart) while an attempt is handshaking or a user
     callback is still running: start() returned last, so the manager runs."""
@@ -743,6 +759,7 @@ def _stop_in_flight_restart_cases():
 def enumerated(tier):
     yield from _stop_in_flight_restart_cases()
     yield from _stop_start_same_instant_cases()
+    yield from _cached_record_cases()
     yield from _late_name_cases()
     yield from _local_end_cases()
     yield from _derived_name_cases()
